@@ -153,7 +153,10 @@ def cases(tier, seed):
                     continue
                 seen.add((cfg, k))
                 for dt in ("r", "c"):
-                    for g in ((0, 1) if tier == "quick" else (0, 1, 2)):
+                    gs = (0, 1) if tier == "quick" else (0, 1, 2)
+                    if size >= 3:
+                        gs = gs[:-1]
+                    for g in gs:
                         out.append(dict(cfg=cfg, tree=t, dt=dt, g=g, seed=int(seed)))
     out.sort(key=lambda c: (X.tree_size(c["tree"]), X.tree_depth(c["tree"]), c["cfg"] != "x", c["dt"] != "r", c["g"],
                             json.dumps(c["tree"])))
@@ -241,11 +244,15 @@ def _check_lin(E, X, lin, api, wm, ref, fails, stats, do_adjoint):
 
 
 def _documented_rejection(e):
-    """Imaginizer documents (raises ValueError) that its adjoint only takes real input."""
+    """Loud dtype rejections of a cotangent: Imaginizer raises ValueError (its adjoint only takes real
+    input); a JaxOperator's VJP raises ValueError when the cotangent dtype differs from the output dtype."""
     import traceback
+    if not isinstance(e, ValueError):
+        return False
+    if "unexpected JAX type" in str(e):
+        return True
     tb = traceback.extract_tb(e.__traceback__)
-    return isinstance(e, ValueError) and any(f.name == "apply" and "simple_linear_operators" in f.filename
-                                             for f in tb[-2:])
+    return any(f.name == "apply" and "simple_linear_operators" in f.filename for f in tb[-2:])
 
 
 def evaluate(case, localise=True):
@@ -302,7 +309,7 @@ def evaluate(case, localise=True):
         import traceback
         fails.append(Fail("exception:%s" % type(e).__name__, "fld", "%r\n%s" % (e, traceback.format_exc()[-1500:])))
     try:
-        for wm in (False, True):
+        for wm in ((False, True) if M is not None else (False,)):
             lin = X.lin_eval(t, E, ift.Linearization.make_var(x, wm))
             _check_lin(E, X, lin, "lin", wm, ref, fails, stats, do_adjoint=not wm)
     except Exception as e:      # noqa
